@@ -109,6 +109,10 @@ pub struct Sel {
     pub pawncap2_light: bool,
     /// PROMOROW
     pub promorow: bool,
+    /// ALIGNED (valid boards of the family)
+    pub aligned: bool,
+    /// HIST from the DISCOVER roots: pawn steps that uncover a check, on the real board
+    pub hist_discover: bool,
     /// HEMMED: an enemy slider hemmed in by its own men, own king next to them
     pub hemmed: bool,
     /// BOXK: cornered king with at most one legal move; 1 = corners a1 / h8, 2 = all four
@@ -141,6 +145,8 @@ impl Sel {
                 boxk: Some(2),
                 backrank: true,
                 hemmed: true,
+                aligned: true,
+                hist_discover: true,
                 ..Default::default()
             }
         } else {
@@ -165,6 +171,8 @@ impl Sel {
                 boxk: Some(1),
                 backrank: true,
                 hemmed: true,
+                aligned: true,
+                hist_discover: true,
                 ..Default::default()
             }
         }
@@ -413,6 +421,27 @@ pub fn run_universes(run: &mut Run, sel: &Sel, disagree_idx: usize, check: PosCh
     if sel.promorow {
         run.par_shards("PROMOROW (every subset of own seventh-rank pawns x every subset of enemy knights on the eighth)", 32, |ctx, sh| {
             uni::promorow((sh / 16) as u8, sh % 16, &mut |p| visit(ctx, p, disagree_idx, check));
+        });
+    }
+    if sel.aligned {
+        run.par_shards("ALIGNED (a king with up to eight enemy sliders aligned at distance 2, each blocked or not; valid ones)", uni::ALIGNED_SHARDS, |ctx, sh| {
+            uni::aligned(sh, &mut |r| {
+                if let Ok(p) = r.validate() {
+                    visit(ctx, &p, disagree_idx, check);
+                }
+            });
+        });
+    }
+    if sel.hist_discover {
+        run.par_shards("HIST-DISCOVER: pawn steps that uncover a check (with an en-passant mark), then every reply, on the real board", 2, |ctx, sh| {
+            uni::discover(sh as u8, &mut |p| {
+                let Some(b) = board_of(p) else { return };
+                for m in p.legal() {
+                    if kind(p.b[m.from as usize]) == P {
+                        hist_step(ctx, p, p, &b, m, &mut Vec::new(), 1, disagree_idx, check);
+                    }
+                }
+            });
         });
     }
     if sel.hemmed {
